@@ -939,6 +939,16 @@ def gen_download(ck, tmp):
             if k <= 2:
                 cases.append((ms, "missing"))
                 cases.append((ms, b"PRIOR"))
+    if not thorough:
+        # a reachable mirror whose body is EMPTY is reachable: its (zero) bytes are the file, later mirrors are not asked
+        # (the class is part of the thorough enumeration; these scripts put it into the quick tier as well)
+        E = lambda i: mirror_classes(i, True)["SuccessEmptyBody"]  # noqa: E731
+        S = lambda i: mirror_classes(i, True)["Success"]  # noqa: E731
+        F = lambda i: mirror_classes(i, True)["HeadNotOk"]  # noqa: E731
+        for script in ([(E, "SuccessEmptyBody")], [(E, "SuccessEmptyBody"), (S, "Success")], [(F, "HeadNotOk"), (E, "SuccessEmptyBody"), (S, "Success")]):
+            ms = [(f(i)[0], f(i)[1], nm) for i, (f, nm) in enumerate(script)]
+            for init in ("fresh", "missing", b"PRIOR"):
+                cases.append((ms, init))
     if thorough:
         for _ in range(4000):  # 4 and 5 mirrors, random assignments
             k = rng.choice([4, 5])
